@@ -24,7 +24,7 @@
 //!   O: {"tid","fresh":OBS}
 //!
 //! OBS = {"status":"ok"|"panic"|"hang"|"cancelled","failed":bool,"log":[..],"panic":[..],
-//!        "diags":[{"m","at":"item"|"use"|"head"|"pad","i","tm","tn","k"}..]   (sorted set)
+//!        "diags":[{"m":module,"line":zero-based line,"k":kind}..]             (sorted set)
 //!        "syms":{module:[[line,name,paramtype]..]}          document symbols (functions)
 //!        "refs":{module:[[line,defmodule,defline]..]}       call-site tokens and the definition they resolve to
 //!        "raw":[..]}                                        (only with --raw)
@@ -104,36 +104,23 @@ fn items_of(text: &Value, m: &str) -> Vec<Item> {
         .unwrap_or_default()
 }
 
-/// Layout of a rendered module: which line holds what.
-struct Layout {
-    text: String,
-    uses: Vec<(String, String)>, // sorted distinct external targets (module, name); use k is on line use0 + k
-    use0: usize,
-    item0: usize,
-    nitems: usize,
-}
-
-fn render(text: &Value, m: &str) -> Layout {
+/// Fixed rendering of an abstract module to Sway text; one construct per line.
+fn render(text: &Value, m: &str) -> String {
     let items = items_of(text, m);
     let pad = text[m]["pad"].as_u64().unwrap_or(0) as usize;
     let mut s = String::from("library;\n");
-    let mut line = 1;
     for c in children(m) {
         if text.get(*c).is_some() {
             s.push_str(&format!("pub mod {c};\n"));
-            line += 1;
         }
     }
     let mut uses: Vec<(String, String)> =
         items.iter().filter_map(|it| it.r.as_ref()).map(|(tm, tn, _)| (tm.clone(), tn.clone())).collect();
     uses.sort();
     uses.dedup();
-    let use0 = line;
     for (tm, tn) in &uses {
         s.push_str(&format!("use {}::{};\n", abs_mod_path(tm), tn));
-        line += 1;
     }
-    let item0 = line;
     for it in &items {
         let body = match &it.r {
             None => "0".to_string(),
@@ -144,7 +131,7 @@ fn render(text: &Value, m: &str) -> Layout {
     for _ in 0..pad {
         s.push('\n');
     }
-    Layout { text: s, uses, use0, item0, nitems: items.len() }
+    s
 }
 
 /// Call sites start at this column in the rendering above (`use` statements end well before it).
@@ -158,7 +145,7 @@ fn write_workspace(dir: &Path, text: &Value) {
     )
     .unwrap();
     for m in mods_of(text) {
-        std::fs::write(dir.join(rel_path(m)), render(text, m).text).unwrap();
+        std::fs::write(dir.join(rel_path(m)), render(text, m)).unwrap();
     }
 }
 
@@ -339,7 +326,7 @@ async fn wait_parsed(state: &ServerState, limit: Duration) -> &'static str {
         if t0.elapsed() > limit {
             return "hang";
         }
-        tokio::time::sleep(Duration::from_micros(300)).await;
+        tokio::time::sleep(Duration::from_millis(1)).await;
     }
     // The worker is idle.  wait_for_parsing must now return at once; if it does not, that is the scheduling
     // protocol's problem (C24), not a cache problem: it is counted, and the state is observed anyway.
@@ -435,22 +422,9 @@ fn module_of_path(p: &Path) -> Option<&'static str> {
     ALL_MODS.iter().copied().find(|m| s.ends_with(&format!("/ws/{}", rel_path(m))))
 }
 
-fn locate(l: &Layout, line: usize) -> (&'static str, usize) {
-    if line >= l.item0 && line < l.item0 + l.nitems {
-        ("item", line - l.item0 + 1)
-    } else if line >= l.use0 && line < l.use0 + l.uses.len() {
-        ("use", line - l.use0 + 1)
-    } else if line < l.use0 {
-        ("head", line)
-    } else {
-        ("pad", line)
-    }
-}
-
 /// Project everything observable of a server (after a step) to JSON.
 fn observe(state: &ServerState, ws: &Path, text: &Value, status: &str, keep_raw: bool) -> Value {
     let mods = mods_of(text);
-    let layouts: BTreeMap<&str, Layout> = mods.iter().map(|m| (*m, render(text, m))).collect();
     let mut diags = vec![];
     let mut raw = vec![];
     let r = std::panic::catch_unwind(std::panic::AssertUnwindSafe(|| {
@@ -466,18 +440,7 @@ fn observe(state: &ServerState, ws: &Path, text: &Value, status: &str, keep_raw:
                         }
                         raw.push(json!([path.file_name().map(|x| x.to_string_lossy().to_string()), line,
                                         e.range.start.character, sev, e.message.lines().next().unwrap_or("")]));
-                        match m {
-                            Some(m) if layouts.contains_key(m) => {
-                                let (at, i) = locate(&layouts[m], line);
-                                if at == "use" {
-                                    let (tm, tn) = &layouts[m].uses[i - 1];
-                                    diags.push(json!({"m":m,"at":at,"i":0,"tm":tm,"tn":tn,"k":kind}));
-                                } else {
-                                    diags.push(json!({"m":m,"at":at,"i":i,"tm":"","tn":"","k":kind}));
-                                }
-                            }
-                            _ => diags.push(json!({"m":"?","at":"head","i":line,"tm":"","tn":"","k":kind})),
-                        }
+                        diags.push(json!({"m": m.unwrap_or("?"), "line": line, "k": kind}));
                     }
                 }
             }
@@ -592,6 +555,10 @@ async fn run_history(root: &Path, h: &Value, out: &mut NdjsonOut, limit: Duratio
     let _ = std::fs::remove_dir_all(&dir);
     write_workspace(&dir, &steps[0]["text"]);
     let _ = take_logs();
+    // housekeeping: dirty-file lock files of earlier histories (same pid, never released) are not this history's
+    if let Some(home) = std::env::var_os("HOME") {
+        let _ = std::fs::remove_dir_all(PathBuf::from(home).join(".forc/.lsp-locks"));
+    }
     let mut state = new_server();
     let mut versions: BTreeMap<String, i32> = BTreeMap::new();
     let mut k = 0;
@@ -599,7 +566,7 @@ async fn run_history(root: &Path, h: &Value, out: &mut NdjsonOut, limit: Duratio
         let mut s = &steps[k];
         let mut act = s["act"].as_str().unwrap();
         let mut m = s["m"].as_str().unwrap();
-        let mut status: &str;
+        let status: &str;
         let mut cancelled_seen = json!(false);
         let path = dir.join(rel_path(m));
         match act {
@@ -618,7 +585,7 @@ async fn run_history(root: &Path, h: &Value, out: &mut NdjsonOut, limit: Duratio
                     if cancel {
                         GATE.arm_next.store(s["at"].as_i64().unwrap_or(1), Ordering::SeqCst);
                     }
-                    let r = did_change(&state, &dir.join(rel_path(m)), *v, &render(&s["text"], m).text).await;
+                    let r = did_change(&state, &dir.join(rel_path(m)), *v, &render(&s["text"], m)).await;
                     gate_release(); // lets a previously held compilation abort
                     if let Err(e) = r {
                         GATE.arm_next.store(0, Ordering::SeqCst);
@@ -636,7 +603,7 @@ async fn run_history(root: &Path, h: &Value, out: &mut NdjsonOut, limit: Duratio
                         if worker_idle() {
                             break; // the compilation ended without reaching check point `at`
                         }
-                        tokio::time::sleep(Duration::from_micros(300)).await;
+                        tokio::time::sleep(Duration::from_millis(1)).await;
                     }
                     if GATE.blocks.load(Ordering::SeqCst) == seen_blocks {
                         GATE.arm_next.store(0, Ordering::SeqCst);
